@@ -141,7 +141,7 @@ def corpus(tier, rng):
     if not full:
         pairs = [p for i, p in enumerate(pairs) if i % 29 == 0]
     else:
-        pairs = [p for i, p in enumerate(pairs) if i % 5 == 0]
+        pairs = [p for i, p in enumerate(pairs) if i % 9 == 0]
     for i, (a, b) in enumerate(pairs):
         for (ta, tb) in ((None, None), (0, None), (None, 1), (0, 1)):
             taxa = (i % 2 == 0)
@@ -156,7 +156,7 @@ def corpus(tier, rng):
             d["opts_list"] = [NEWICK_OPTS[0]] + [rest[(3 * i + j) % len(rest)] for j in range(3)]
     # NeXML: written from the NEXUS documents (subset)
     nx = [d for d in docs if d["schema"] == "nexus"]
-    step = 3 if full else 9
+    step = 4 if full else 9
     for d in nx[::step]:
         try:
             ds = DataSet.get(data=d["text"], schema="nexus")
@@ -474,7 +474,7 @@ def t2(ctx):
                        "TRANSLATE combinations, optional CHARACTERS block; NeXML: written from every %s NEXUS document) x reader option "
                        "sets (Newick/NEXUS: 12 in thorough, default + 3 rotating in quick; NeXML: 2) x every route; one evaluation = one route call compared with the reference; "
                        "non-trivial = document with >= 2 trees"
-                       % (len(docs), "" if ctx.tier == "thorough" else " (length 3 thinned 1/8)", "3rd" if ctx.tier == "thorough" else "9th"),
+                       % (len(docs), "" if ctx.tier == "thorough" else " (length 3 thinned 1/8)", "4th" if ctx.tier == "thorough" else "9th"),
               exhaustive=False)
     scm = "routes-agree@matrices"
     ctx.scope(scm, rule="%d character documents (NEXUS DATA/CHARACTERS incl. interleaved, two blocks, SETS, standard, protein, continuous; "
